@@ -17,7 +17,11 @@ MANIFEST = {
                   "C09_builder_ctts_query); StscBox.AddEntry / SetSingleSampleDescriptionID leave the closed form of the table the history "
                   "describes = what DecodeStscSR builds, FirstSampleNr[i] = 1 + samples of the earlier runs (C09_builder_stsc, "
                   "C09_stsc_cache); boxes built by any histories from consistent file-level tables satisfy `consistent`, so every query "
-                  "theorem applies to API-built tables (C09_builder_consistent). Arithmetic hypotheses stated exactly on the bare stts columns: "
+                  "theorem applies to API-built tables (C09_builder_consistent; C09_builder_consistent_rows: the same WITHOUT the hypothesis "
+                  "raw_ok - every arithmetic clause of raw_ok follows from the shape of the table, N+1 < 2^32 and C+1 < 2^32 "
+                  "(C09_raw_ok_from_shape); what is left is ids_ok: description ids are non-zero uint32, weaker by C09_raw_ok_ids). "
+                  "The hypotheses of C09_builder_consistent_rows and of C09_time_code are EVALUATED by the model driver on the valid "
+                  "cases of every run (evidence: coverage.theorem_hypotheses_evaluated). Arithmetic hypotheses stated exactly on the bare stts columns: "
                   "GetDecodeTime needs none (C09_decode_time_exact: any uint32 columns, counts may sum past 2^32, every uint32 sample number "
                   "1..N; C09_decode_time_past_end: Panic for every table past N), GetSampleNrAtTime needs exactly sum(counts)+1 < 2^32 "
                   "(C09_sample_at_time_exact; refuted just above by C09_sample_at_time_wrap_refuted, known finding C09-F6), the FirstSampleNr "
@@ -71,6 +75,17 @@ def _corr(ctx, exe, model, args, label):
     res = common.run_model(model, cases, timeout=3000)
     mism = [l for l in res if not l.startswith("OK ")]
     nq = sum(l.count("=") - 1 for l in lines)
+    # hypotheses of C09_builder_consistent_rows / C09_time_code evaluated by the driver on the valid cases of this run
+    for l in res:
+        if l.startswith("OK #hyp "):
+            hyp = ctx.notes.setdefault("theorem_hypotheses_evaluated", {})
+            for kv in l.split()[2:]:
+                k, v = kv.split("=")
+                a, b = v.split("/")
+                name = {"rows": "C09_builder_consistent_rows (valid tables whose history satisfies the hypotheses / valid tables)",
+                        "tc": "C09_time_code (GetTimeCode queries within the hypotheses, conclusion true / GetTimeCode queries on valid tables)"}[k]
+                old = hyp.get(name, "0/0").split("/")
+                hyp[name] = "%d/%d" % (int(old[0]) + int(a), int(old[1]) + int(b))
     return lines, mism, nq
 
 
@@ -95,8 +110,10 @@ def run(ctx):
         "(C09_sample_at_time_exact) the only arithmetic hypothesis is sum(counts)+1 < 2^32; GetDecodeTime (C09_decode_time_exact) has none",
         "sample numbers 1..N, chunk numbers 1..C, intervals 1<=a<=b<=N (behaviour outside is only compared model vs code, not specified)",
         "builder histories: ANY list of calls on a box DecodeStscSR returned or on an empty box (a call with description id 0 or a "
-        "first AddEntry with firstChunk != 1 is refused: box and table untouched); C09_builder_consistent additionally asks the "
-        "file-level stsc table for raw_ok (no uint32 wrap) and rows_ok (samples/chunk >= 1, first chunks strictly increasing, <= C)",
+        "first AddEntry with firstChunk != 1 is refused: box and table untouched); C09_builder_consistent_rows additionally asks the "
+        "file-level stsc table for ids_ok (description ids non-zero uint32) and rows_ok (samples/chunk >= 1, first chunks strictly "
+        "increasing, <= C); raw_ok (no uint32 wrap), still a hypothesis of C09_builder_consistent, is derived (C09_raw_ok_from_shape)",
+        "GetTimeCode (C09_time_code): timescale a non-zero uint32 and floor(10^9 * decode time / timescale) < 2^63 (a time.Duration)",
     ]
     exe, model = build(ctx)
     pr = ctx.proofs("c09", "C09Theorems.v")
